@@ -35,6 +35,12 @@ type loggerCase struct {
 	// the input pauses for SilenceMs after SilenceAfterChunks chunks
 	SilenceAfterChunks int `json:"silence_after_chunks,omitempty"`
 	SilenceMs          int `json:"silence_ms,omitempty"`
+	// the standard input is a pipe in non-blocking mode
+	StdinNonblock bool `json:"stdin_nonblocking,omitempty"`
+	// the configured record directory is written as <dir>/link/../record, where link is
+	// a symbolic link into another directory: the operating system's meaning of the
+	// path, <dir>/elsewhere/record, is where the record belongs
+	SymlinkDir bool `json:"record_directory_behind_symlink,omitempty"`
 }
 
 // allParked: in a goroutine dump taken after SIGQUIT, is every goroutine that
@@ -92,6 +98,13 @@ func execC16(c *child.Ctx, k loggerCase, cj []byte) {
 	os.MkdirAll(dir, 0755)
 	defer os.RemoveAll(dir)
 	logDir := filepath.Join(dir, "record")
+	recRel := "record"
+	if k.SymlinkDir {
+		os.MkdirAll(filepath.Join(dir, "elsewhere", "sub"), 0755)
+		os.Symlink(filepath.Join(dir, "elsewhere", "sub"), filepath.Join(dir, "link"))
+		logDir = dir + "/link/../record" // not filepath.Join: it would clean the path
+		recRel = filepath.Join("elsewhere", "record")
+	}
 	cfgText := fmt.Sprintf(`{"log_events": %v, "message_log_directory": %q`, k.LogEvents, logDir)
 	if !k.NoOldDir {
 		cfgText += fmt.Sprintf(`, "directory_for_old_message_logs": %q`, filepath.Join(dir, "old"))
@@ -128,7 +141,7 @@ func execC16(c *child.Ctx, k loggerCase, cj []byte) {
 		extraEnv = append(extraEnv, "TZ="+k.TZ)
 	}
 	ak := appCase{ID: k.ID, StdinMode: "pipe", StdoutMode: "fast", Chunk: k.Chunk, ReaderUs: k.GapUs, Procs: k.Procs, HookProfile: k.Hook,
-		SilenceAfterChunks: k.SilenceAfterChunks, SilenceMs: k.SilenceMs}
+		SilenceAfterChunks: k.SilenceAfterChunks, SilenceMs: k.SilenceMs, StdinNonblock: k.StdinNonblock}
 	if k.Stdin == "file" {
 		ak.StdinMode = "file"
 	}
@@ -172,13 +185,17 @@ func execC16(c *child.Ctx, k loggerCase, cj []byte) {
 	// the record must be in the configured directory itself
 	inLogDir := map[string][]byte{}
 	for name, b := range res.Files {
-		if filepath.Dir(name) == "record" {
+		if filepath.Dir(name) == recRel {
 			inLogDir[name] = b
 		}
 	}
 	rec, nfiles := concatFiles(inLogDir, "rtcmlogger.", ".rtcm")
 	if !bytes.Equal(rec, in) {
-		c.Violate("record-differs", fmt.Sprintf("after the program ended the day's record file(s) (%d) hold %d bytes for %d bytes of input: %s (stdin %s, hook %q)", nfiles, len(rec), len(in), firstDiff(rec, in), k.Stdin, k.Hook), cj)
+		where := ""
+		if k.SymlinkDir {
+			where = fmt.Sprintf(" in the configured directory %s (which the operating system resolves to %s)", logDir, filepath.Join(dir, recRel))
+		}
+		c.Violate("record-differs", fmt.Sprintf("after the program ended the day's record file(s) (%d)%s hold %d bytes for %d bytes of input: %s (stdin %s, hook %q)", nfiles, where, len(rec), len(in), firstDiff(rec, in), k.Stdin, k.Hook), cj)
 		return
 	}
 	c.Count("processes_checked", 1)
@@ -257,6 +274,11 @@ func monC16(c *child.Ctx, replay json.RawMessage) {
 				k.GapUs = -20000
 			}
 			c.Count("runs_with_silent_input", 1)
+		}
+		k.StdinNonblock = k.Stdin != "file" && (i%3 == 1 || k.SilenceMs > 0)
+		if i%9 == 4 {
+			k.SymlinkDir = true
+			c.Count("runs_with_record_directory_behind_a_symlink", 1)
 		}
 		if i == 2 && c.Batch == 0 || c.Thorough() && i%100 == 2 {
 			// a long session with the event log on: several megabytes through one process
